@@ -73,7 +73,7 @@ if os.path.exists(rp):
     rest = [l.split("|")[1].strip() + " (" + l.split("|")[3].strip()[:40] + ")" for l in lines if "| CAUGHT" not in l]
     retrial = f"""**Regression over the whole archive.** Because the checks kept changing while the rounds went on,
 `scripts/retrial_all.sh` re-applies EVERY archived change to a private clone of /repo and runs the current
-owning quick check against it (4 lanes, about 1.5 h). Last run (after the tape change described in section 0):
+quick check recorded as catching it (normally the owning property's; 4 lanes, about 1.5-2 h). Last run (after the tape change described in section 0):
 {ok} of {len(lines)} caught (`seeded/RETRIAL.md`); not caught: {", ".join(rest) if rest else "none"}
 (R5-C11-1 is the change neutralised by fix a24949c, see round 5 above).
 
